@@ -98,6 +98,19 @@ class Program:
             raise KeyError(f'function {qual} not found in working tree')
         return m.funcs[local], m
 
+    TRANSPARENT_DECORATORS = {'property', 'staticmethod', 'classmethod'}
+
+    def wrapped_by(self, qual):
+        """decorators of a function that replace it by something else at import time (everything except property / staticmethod /
+        classmethod): a contract proved on the body says nothing about what callers of the NAME reach"""
+        try: fn, _ = self.func(qual.split('#')[0])
+        except KeyError: return []
+        out = []
+        for d in getattr(fn, 'decorator_list', []):
+            nm = ast.unparse(d.func if isinstance(d, ast.Call) else d)
+            if nm.split('.')[-1] not in self.TRANSPARENT_DECORATORS and not nm.endswith('.setter'): out.append(nm)
+        return out
+
     def has_func(self, qual):
         mod, local = qual.split(':')
         return mod in self.modules and local in self.modules[mod].funcs
@@ -144,6 +157,8 @@ class Program:
         if src.count(old) != count:
             return None
         ov = dict(self.overrides); ov[modname] = src.replace(old, new)
+        try: ast.parse(ov[modname])
+        except SyntaxError: return None          # on this tree the textual mutation does not yield a program: the canary does not apply
         return Program(self.src_root, ov)
 
 
